@@ -373,6 +373,14 @@ MUTANTS += [
     ("c08-ms-output-round", ["C08"], [(TB, "            output_shape[self._split_dim - 1] = (\n                output_shape[self._split_dim - 1] + 1\n            ) // 2", "            output_shape[self._split_dim - 1] = round(output_shape[self._split_dim - 1] / 2)")], "MS-SPLIT"),
 ]
 
+DNF = "nflows/distributions/normal.py"
+MUTANTS += [
+    ("c03-normal-times-std", ["C03", "C05"], [(DNF, "        norm_inputs = (inputs - means) * torch.exp(-log_stds)", "        norm_inputs = (inputs - means) * torch.exp(log_stds)")], "BASE-TERMS"),
+    ("c03-normal-roles-swapped", ["C03", "C05"], [(DNF, "        norm_inputs = (inputs - means) * torch.exp(-log_stds)", "        norm_inputs = (inputs - log_stds) * torch.exp(-means)")], "BASE-TERMS"),
+    ("c03-normal-quarter", ["C03"], [(DNF, "        neg_energy = -0.5 * \\\n            torchutils.sum_except_batch(inputs ** 2, num_batch_dims=1)", "        neg_energy = -torchutils.sum_except_batch(inputs ** 2, num_batch_dims=1) / 4")], "BASE-TERMS"),
+    ("c03-normal-cube", ["C03"], [(DNF, "            torchutils.sum_except_batch(inputs ** 2, num_batch_dims=1)", "            torchutils.sum_except_batch(inputs ** 2 * inputs, num_batch_dims=1)")], "BASE-TERMS"),
+]
+
 # ---- C11 LIN-WORD / LIN-LOGDET on the matrix-word algebra ----
 MUTANTS += [
     ("c11w-lu-weight-order", ["C11"], [(LU, "        return lower @ upper", "        return upper @ lower")], "LIN-WORD"),
@@ -420,6 +428,10 @@ MUTANTS += [
 ]
 
 BENIGN = [
+    ("b-c03-normal-pow-half", ["C03", "C05"], [("nflows/distributions/normal.py", "        neg_energy = -0.5 * \\\n            torchutils.sum_except_batch(inputs ** 2, num_batch_dims=1)", "        neg_energy = -torchutils.sum_except_batch(inputs.pow(2), num_batch_dims=1) / 2")]),
+    ("b-c03-normal-x-times-x", ["C03", "C05"], [("nflows/distributions/normal.py", "            torchutils.sum_except_batch(inputs ** 2, num_batch_dims=1)", "            torchutils.sum_except_batch(inputs * inputs, num_batch_dims=1)")]),
+    ("b-c03-normal-divide-std", ["C03", "C05"], [("nflows/distributions/normal.py", "        norm_inputs = (inputs - means) * torch.exp(-log_stds)", "        norm_inputs = (inputs - means) / torch.exp(log_stds)")]),
+    ("b-c03-normal-square-fn", ["C03", "C05"], [("nflows/distributions/normal.py", "            norm_inputs ** 2, num_batch_dims=1\n", "            torch.square(norm_inputs), num_batch_dims=1\n")]),
     ("b-c05-cdn-broadcast-pair", ["C05", "C04", "C18", "C19"], [("nflows/distributions/normal.py", "        means = torchutils.repeat_rows(means, num_samples)\n        stds = torchutils.repeat_rows(stds, num_samples)\n", ""), ("nflows/distributions/normal.py", "        noise = torch.randn(context_size * num_samples, *\n                            self._shape, device=means.device)\n        samples = means + stds * noise\n        return torchutils.split_leading_dim(samples, [context_size, num_samples])", "        noise = torch.randn(context_size, num_samples, *self._shape, device=means.device)\n        return means[:, None] + stds[:, None] * noise")]),
     ("b-c20-mid-np-ceil", ["C20"], [(TU, "    midpoint = features // 2 if features % 2 == 0 else features // 2 + 1", "    midpoint = int(np.ceil(features / 2))")]),
     ("b-c20-mid-shift", ["C20"], [(TU, "    midpoint = features // 2 if features % 2 == 0 else features // 2 + 1", "    midpoint = (features + 1) >> 1")]),
